@@ -621,6 +621,99 @@ fn gen_dag(r: &mut Rng, n: usize, allow_not: bool, allow_const: bool) -> Formula
     Formula { nodes, root }
 }
 
+/// Non-monotone formulas with operands that are constant only SEMANTICALLY (the lineage
+/// store cannot simplify them, the decision diagram can): a contradiction such as
+/// x AND NOT(x OR y) or a tautology such as x OR NOT(x AND y), created before or after its
+/// siblings below an OR / AND node, optionally nested further.
+fn gen_hidden_constants(r: &mut Rng, n: usize) -> Formula {
+    let mut nodes = lit_nodes(n);
+    let lit = |r: &mut Rng| r.below(n);
+    let hidden = |r: &mut Rng, nodes: &mut Vec<Node>, tautology: bool| -> usize {
+        let (x, y) = (lit(r), lit(r));
+        match (tautology, r.below(3)) {
+            (false, 0) => {
+                nodes.push(Node::Or(vec![x, y]));
+                let o = nodes.len() - 1;
+                nodes.push(Node::Not(o));
+                let no = nodes.len() - 1;
+                nodes.push(Node::And(vec![x, no])); // x AND NOT(x OR y)
+            }
+            (false, 1) => {
+                nodes.push(Node::And(vec![x, y]));
+                let a = nodes.len() - 1;
+                nodes.push(Node::Not(x));
+                let nx = nodes.len() - 1;
+                nodes.push(Node::And(vec![a, nx])); // (x AND y) AND NOT x
+            }
+            (false, _) => {
+                nodes.push(Node::Or(vec![x, y]));
+                let o = nodes.len() - 1;
+                nodes.push(Node::Not(o));
+                let no = nodes.len() - 1;
+                nodes.push(Node::And(vec![no, y])); // NOT(x OR y) AND y
+            }
+            (true, 0) => {
+                nodes.push(Node::And(vec![x, y]));
+                let a = nodes.len() - 1;
+                nodes.push(Node::Not(a));
+                let na = nodes.len() - 1;
+                nodes.push(Node::Or(vec![x, na])); // x OR NOT(x AND y)
+            }
+            (true, 1) => {
+                nodes.push(Node::Or(vec![x, y]));
+                let o = nodes.len() - 1;
+                nodes.push(Node::Not(x));
+                let nx = nodes.len() - 1;
+                nodes.push(Node::Or(vec![o, nx])); // (x OR y) OR NOT x
+            }
+            (true, _) => {
+                nodes.push(Node::And(vec![x, y]));
+                let a = nodes.len() - 1;
+                nodes.push(Node::Not(a));
+                let na = nodes.len() - 1;
+                nodes.push(Node::Or(vec![na, y])); // NOT(x AND y) OR y
+            }
+        }
+        nodes.len() - 1
+    };
+    let sibling = |r: &mut Rng, nodes: &mut Vec<Node>| -> usize {
+        match r.below(3) {
+            0 => lit(r),
+            1 => {
+                nodes.push(Node::And(vec![lit(r), lit(r)]));
+                nodes.len() - 1
+            }
+            _ => {
+                nodes.push(Node::Or(vec![lit(r), lit(r)]));
+                nodes.len() - 1
+            }
+        }
+    };
+    let tautology = r.coin();
+    let hidden_first = r.chance(2, 3);
+    let mut children: Vec<usize> = vec![];
+    if hidden_first {
+        children.push(hidden(r, &mut nodes, tautology));
+    }
+    for _ in 0..r.range(1, 2) {
+        children.push(sibling(r, &mut nodes));
+    }
+    if !hidden_first {
+        children.push(hidden(r, &mut nodes, tautology));
+    }
+    // the neutral constant for the parent: contradiction under OR, tautology under AND (and, less
+    // often, the absorbing combination)
+    let parent_or = if r.chance(4, 5) { !tautology } else { tautology };
+    nodes.push(if parent_or { Node::Or(children) } else { Node::And(children) });
+    let mut root = nodes.len() - 1;
+    if r.chance(1, 3) {
+        let other = sibling(r, &mut nodes);
+        nodes.push(if r.coin() { Node::And(vec![root, other]) } else { Node::Or(vec![root, other]) });
+        root = nodes.len() - 1;
+    }
+    Formula { nodes, root }
+}
+
 #[derive(Clone, Copy, Debug, PartialEq)]
 enum Thr {
     Zero,
@@ -1284,7 +1377,8 @@ fn phase_random(ctx: &mut Ctx) {
         let model = r.weighted(&[10, 7, 1]); // independent, groups, missing seed
         let dyadic = !r.chance(1, 8);
         let seeds = gen_seeds(&mut r, n, model == 1, dyadic, model == 2);
-        let (family, f) = match r.weighted(&[5, 3, 2, 5, 5, 1]) {
+        let (family, f) = match r.weighted(&[5, 3, 2, 5, 5, 1, 3]) {
+            6 => ("hidden_semantic_constants", gen_hidden_constants(&mut r, n)),
             0 => ("dnf_with_subsumption", gen_dnf(&mut r, n)),
             1 => ("and_of_ors", gen_cnf(&mut r, n)),
             2 => ("ladder", gen_ladder(&mut r, n)),
